@@ -10,10 +10,10 @@ def plan(tier, seed):
               jobs=5, timeout=600 if tier == "quick" else 1800, mem_gb=12)
     meta = {
         "rule": "every sequence of pushes (item length concrete 0,1 quick (+6 seeded with 2-byte items) / 0,1,2 thorough; bytes symbolic) and writer "
-                "hand-backs up to length 3 (quick) / 3 with item lengths 0..2 plus 12 seeded shapes of length 4 (thorough) through the real SupplyBackpressure as Uplinks::{push,replace_and_pop} drive it; "
+                "hand-backs up to length 3 (quick) / 3 with item lengths 0..2 (thorough) through the real SupplyBackpressure as Uplinks::{push,replace_and_pop} drive it; "
                 "oracle: items handed out == items pushed, same order, same multiplicity, same bytes; queue empty after one hand-back per item.",
         "functions_encoded": ["SupplyBackpressure::{push_bytes,has_data}", "<SupplyBackpressure as BackpressureStrategy>::prepare_write", "bytes::{BytesMut,Buf::get_u64,take,put}"],
-        "bounds": {"item_bytes": "0..1 quick (+2 seeded) / 0..2 thorough", "shape_length": "3 quick / 3 (lengths 0..2) + 12 seeded of 4 thorough", "unwind": 8},
+        "bounds": {"item_bytes": "0..1 quick (+2 seeded) / 0..2 thorough", "shape_length": "3 quick / 3 (lengths 0..2) thorough", "unwind": 8},
         "stubs": [],
         "outside": ["shapes with a non-empty push after a hand-back that consumed a non-empty item (CBMC aborts on BytesMut::reserve of an advanced buffer: measured)", "command lanes' handler invocation and ad hoc commands (CommandOutput / external_links): not encoded", "the Uplinks scheduler around the strategy (write_queue, queued flag, special queue): needs RemoteSender/byte channels",
                     "agent-side SupplyLane queue, real channel writes, task interleavings"],
